@@ -6,6 +6,12 @@ import TapkeeVerif.Model.Callbacks
     in : `chain order=dfk`            attach, in this order, a callback created for role d, f, k; then embedRange
     out: `k=k d=d f=f`                which role's callback `tapkee::embed` receives in each slot (`-` = dummy),
                                       `no-such-member` when the chain does not compile
+    in : `stored prog=P:0,s,k:0>1:a,c:1>9,x:1,f:9>2:b,e:2,e:2`   a multi-step use of the chain, statement by statement:
+                                      `P:v` auto v = with(params) · `k|d|f:v>w:id` auto w = v.withKernel|Distance|Features(callback id)
+                                      · `c:v>w` auto w = v · `x:v` v destroyed · `s` unrelated code (stack reused)
+                                      · `e:v` v.embedRange / embedUsing(container) · `m:v` v.embedUsing(matrix) (eigen callbacks `E`)
+    out: `k=a d=- f=b;k=a d=- f=b`    one call per finished chain (`Chain.exec`); `undefined` when the program uses a variable that
+                                      holds no state or a member that does not exist
     in : `uses method=Isomap`
     out: `declared=d mentioned=d undeclared=-`   from the regenerated tables -/
 open TapkeeVerif TapkeeVerif.Util TapkeeVerif.Front TapkeeVerif.Gen TapkeeVerif.Params TapkeeVerif.Chain
@@ -25,6 +31,34 @@ def answerChain (order : String) : String :=
     match chain () ops with
     | some c => s!"k={showSlot c.kernel} d={showSlot c.distance} f={showSlot c.features}"
     | none => "no-such-member"
+
+def parseStmt (t : String) : Option (Stmt Unit String String String) :=
+  if t = "s" then some .scribble else
+  match t.splitOn ":" with
+  | ["P", v] => (parseNat v).map fun v => .start v ()
+  | ["c", vw] => match (vw.splitOn ">").map parseNat with
+    | [some v, some w] => some (.copy v w)
+    | _ => none
+  | ["x", v] => (parseNat v).map .destroy
+  | ["e", v] => (parseNat v).map .finish
+  | ["m", v] => (parseNat v).map fun v => .finishMatrix v "E" "E" "E"
+  | [r, vw, id] => match (vw.splitOn ">").map parseNat with
+    | [some v, some w] =>
+      if r = "k" then some (.attach v w (.withKernel id)) else if r = "d" then some (.attach v w (.withDistance id))
+      else if r = "f" then some (.attach v w (.withFeatures id)) else none
+    | _ => none
+  | _ => none
+
+def showCall (c : Call Unit String String String) : String :=
+  s!"k={c.kernel.getD "-"} d={c.distance.getD "-"} f={c.features.getD "-"}"
+
+def answerStored (prog : String) : String :=
+  match allSome ((splitNonEmpty prog ",").map parseStmt) with
+  | none => "bad-program"
+  | some stmts =>
+    match exec stmts with
+    | some calls => ";".intercalate (calls.map showCall)
+    | none => "undefined"
 
 def letters (l : List Cb) : String :=
   let s := String.join ([Cb.kernel, Cb.distance, Cb.features].filterMap fun c =>
@@ -53,6 +87,7 @@ def answerCb (fs : List (String × String)) : String :=
 def answer (line : String) : String :=
   let fs := fields line
   if line.startsWith "chain" then answerChain ((field? fs "order").getD "")
+  else if line.startsWith "stored" then answerStored ((field? fs "prog").getD "")
   else if line.startsWith "uses" then answerUses ((field? fs "method").getD "")
   else if line.startsWith "cbcheck" then answerCb fs
   else "bad-case"
